@@ -43,6 +43,10 @@ def gen_history(rng, nops):
             x0 = rng.choice(points)
             x = nm("a")
             terms = rng.choice([[[x0, 1.0]], [[x0, 0.5], [x0, 0.5]], [[x0, 2.0], [x0, -1.0]]])
+            if rng.random() < 0.25:
+                # the same point written with an explicit zero multiple of another point (0 * y keeps its key)
+                y0 = rng.choice(points)
+                terms = rng.choice([[[x0, 1.0], [y0, 0.0]], [[y0, 0.0], [x0, 1.0]], [[x0, 0.0]], [[y0, 0.0]]])
             ops.append({"op": "plin", "out": x, "terms": terms})
             return x
         if len(points) >= 2:
